@@ -530,7 +530,7 @@ class YPPythonCodeGenerator:
     def generate_list(self,expr):
         return "[" + ",".join( [ v.generate(self) for v in expr.l ] ) + "]"
     def generate_value(self,expr):
-        return expr.val
+        return str(int(expr.val))
     def _get_loop_var(self):
         return 'l'+str(self.loop_level+1)
     def _enter_loop(self):
